@@ -387,7 +387,6 @@ func showMono(m string) string {
 	return strings.ReplaceAll(m, "*", "·")
 }
 
-
 // congruenceSub decides Sub and Opp exactly: with β the borrow out of the four-step chain arg1 − arg2 (0 − arg1 for Opp),
 // the output words satisfy  out ≡ arg1 − arg2 + β·m  (mod 2^256)  as a polynomial identity; since β is by
 // construction [arg1 < arg2] and 0 ≤ arg1 − arg2 + β·m < m for reduced operands, that is the specification.
